@@ -16,6 +16,7 @@ sre_c = rx.sre_c
 def find_regex(ctx, f):
     """The constant pattern whose findall() result feeds the candidate loop."""
     module = f.module
+    find_regex.flags = set()
     for n in ast.walk(f.node):
         if isinstance(n, ast.Call) and isinstance(n.func, ast.Attribute) and n.func.attr in ("findall", "finditer"):
             recv = n.func.value
@@ -28,8 +29,19 @@ def find_regex(ctx, f):
                 flags = n.args[2:] or n.keywords
             else:
                 continue
-            if flags:
-                raise AnalysisError("C13.regex", "regex flags are not modelled", n, module)
+            fl = set()
+            for fx in flags:
+                fx = fx.value if isinstance(fx, ast.keyword) else fx
+                for part in ast.walk(fx):
+                    if isinstance(part, ast.Attribute) and isinstance(part.value, ast.Name) and part.value.id == "re":
+                        fl.add({"I": "IGNORECASE", "A": "ASCII"}.get(part.attr, part.attr))
+                    elif isinstance(part, (ast.BinOp, ast.BitOr, ast.Name, ast.Load)):
+                        continue
+                    else:
+                        raise AnalysisError("C13.regex", "regex flags expression not modelled", n, module)
+            if fl - {"IGNORECASE", "ASCII"}:
+                raise AnalysisError("C13.regex", "regex flags %s are not modelled" % sorted(fl), n, module)
+            find_regex.flags = fl
             try:
                 pat = ctx.ce.eval(module, parg, "C13.regex")
             except AnalysisError:
@@ -89,6 +101,27 @@ def check_c13(ctx, led):
     n_min = items[1][1][0]
     univ = [chr(c) for c in range(32, 127)]
     cls = rx.charset_of(items[1][1][2][0][1], univ + [rx.OTHER])
+    flags = getattr(find_regex, "flags", set())
+    if "IGNORECASE" in flags:
+        cls = set(cls)
+        for c in list(cls):
+            if c.isalpha():
+                cls |= {c.lower(), c.upper()}
+        if "ASCII" not in flags:
+            # Unicode case folding: [a-z] with IGNORECASE also matches these four characters
+            for base, extra in (("i", "\u0130"), ("i", "\u0131"), ("s", "\u017f"), ("k", "\u212a")):
+                if base in cls:
+                    cls.add(extra)
+    allowed = set("ABCDEFGHIJKLMNOPQRSTUVWXYZabcdefghijklmnopqrstuvwxyz:/")
+    extra = sorted(c for c in cls if c not in allowed and c != rx.OTHER)
+    led.check(
+        not extra and rx.OTHER not in cls,
+        "C13.complete.delimiters",
+        ck_rx + " class",
+        module.where(call),
+        "the candidate class also matches %s, characters outside [A-Za-z:/]: a valid vector delimited by one of them is glued "
+        "to it and lost" % [("U+%04X" % ord(c)) for c in extra[:6]],
+    )
     info2, info3 = parse_summary(ctx, 2), parse_summary(ctx, 3)
     acc2, acc3 = info2["accepted"], info3["accepted"]
     spec2, spec3 = ctx.vspec(2), ctx.vspec(3)
